@@ -172,7 +172,7 @@ func TestVerifC20(t *testing.T) {
 		r.Note("cannot create a fixture under /root (%v): the existing-database-in-a-protected-directory bases are skipped", err)
 		r.NotExhaustive("no writable protected directory for the real-database fixture")
 	}
-	segs := []string{".", "..", "safe", "db", "missing", "toEtc", "toUsrLib", "toSafe", "etc", "usr", "root", "etcetera", "usrlocal", "file", "bin", "sbin", "boot", "bootstrap"}
+	segs := []string{".", "..", "..data", "...", "safe", "db", "missing", "toEtc", "toUsrLib", "toSafe", "etc", "usr", "root", "etcetera", "usrlocal", "file", "bin", "sbin", "boot", "bootstrap"}
 	maxSeg := 3
 	if vh.Thorough() {
 		maxSeg = 4
